@@ -75,9 +75,10 @@ def thin(cases, rnd, keep):
     groups = {}
     out = []
     for c in cases:
-        m = c["muts"][0]
-        if len(c["muts"]) == 1 and m["m"] == "tok" and m["tok"] in HEAVY and c["fields"][m["at"] - 1]["lim"] >= 0:
-            groups.setdefault((c["t"], c["fmt"], c["fields"][m["at"] - 1]["r"], m["tok"]), []).append(c)
+        hv = [m for m in c["muts"] if m["m"] == "tok" and m["tok"] in HEAVY and c["fields"][m["at"] - 1]["lim"] >= 0]
+        if hv:
+            m = hv[0]
+            groups.setdefault((c["t"], c["fmt"], c["fields"][m["at"] - 1]["r"], m["tok"], len(c["muts"])), []).append(c)
         else:
             out.append(c)
     for k in sorted(groups):
@@ -134,7 +135,7 @@ def run(ctx):
     uniq = {}
     for c in cases2:
         uniq.setdefault(_j.dumps([c["b"], c["muts"]], sort_keys=True), c)
-    cases2 = list(uniq.values())
+    cases2 = thin(list(uniq.values()), rnd, 1 if q else 4)
     ctx.log("random mutation pairs: %d distinct cases" % len(cases2))
     ctx.replay(cases2, timeout=2400, jobs=12)
     ctx.log("random pairs replayed")
